@@ -454,3 +454,4 @@ RULES = [
 	('11.v', 'field-versus-field comparisons (a received value against a limit, an id against an id) are the reviewed ones: same fields, same operator (rules/provenance.py)', lambda F: provenance.cmps_for_property(F, 'C11', '11.v')),
 	('11.s', 'no reviewed function gained a short-circuiting iterator adaptor (find / find_map / take / position ...: an every-element walk that stops at the first match; rules/provenance.py)', lambda F: provenance.sc_for_property(F, 'C11', '11.s')),
 ]
+RULES.append(('11.t', 'identity comparisons: every reviewed (function, identity type) == / != comparison (HTLCSource, Txid, OutPoint, ChannelId, PaymentHash, PublicKey, ...) is still made - a function does not silently change what it matches by (rules/provenance.py)', lambda F: provenance.ids_for_property(F, 'C11', '11.t')))
